@@ -122,9 +122,12 @@ def pUntil (stop : Char → Bool) : P String := fun cs =>
   let s := cs.takeWhile (fun c => !stop c)
   some (String.ofList s, cs.drop s.length)
 
+/-- hex, with `e` for the empty byte string -/
+def hexE (s : String) : Option (List Nat) := if s = "e" then some [] else parseHex s
+
 def parseBufs (s : String) : Option (List (List Nat)) :=
   if s = "-" then some [] else
-  (s.splitOn "|").mapM (fun b => if b = "e" then some [] else parseHex b)
+  (s.splitOn "|").mapM hexE
 
 partial def pArray : P ArrayData := fun cs => do
   let (_, r) ← pChar 'A' cs
@@ -142,9 +145,9 @@ partial def pArray : P ArrayData := fun cs => do
   let bufs ← parseBufs bs
   let nulls ← (if ns = "-" then some none else
     match ns.splitOn ":" with
-    | [h] => (parseHex h).map (fun b => some { bytes := b, off := off, len := len, nullCount := countNulls b off len : Nulls })
+    | [h] => (hexE h).map (fun b => some { bytes := b, off := off, len := len, nullCount := countNulls b off len : Nulls })
     | [h, c] => do
-      let b ← parseHex h
+      let b ← hexE h
       let c ← c.toNat?
       pure (some { bytes := b, off := off, len := len, nullCount := c : Nulls })
     | _ => none)
